@@ -119,7 +119,7 @@ func RecordSchema(t *rapid.T, o *SchemaOpts, depth int) ref.Schema {
 	if rapid.IntRange(0, 14).Draw(t, "emptyRecord") == 0 {
 		lo = 0
 	}
-	n := rapid.IntRange(lo, 5).Draw(t, "nfields")
+	n := UniformRange(t, "nfields", lo, 5)
 	for i := 0; i < n; i++ {
 		name := fmt.Sprintf("f%d", i)
 		if o.FancyNames && rapid.IntRange(0, 7).Draw(t, "fancyField") == 0 {
